@@ -120,7 +120,8 @@ def fault_run(ctx: Ctx, preset, opts, doc, quick):
         md = build(preset, opts, c2, plan)
         # warm up so that caches exist, with the plan disabled
         plan[0] = None
-        allp = PROBES + (nest_probes(md) if (md.options.get("maxNesting", 100) <= 30 or ctx.rng.random() < 0.08) else [])
+        # the failed document itself is a probe too (state keyed by the source would only show on a re-parse of the same source)
+        allp = [doc] + PROBES + (nest_probes(md) if (md.options.get("maxNesting", 100) <= 30 or ctx.rng.random() < 0.08) else [])
         probes_before = [md.render(p) for p in allp]
         snap = snapshot(md)
         from .statesnap import deep_state, diff
@@ -150,24 +151,26 @@ def fault_run(ctx: Ctx, preset, opts, doc, quick):
             else:
                 dd = diff(deep0, deep_state(md, fn_identity=True))
                 ctx.corr_compared += 1
+                # first of all the probes (the failed document first): state keyed by the last source would be overwritten by any
+                # other render
+                try:
+                    after = [md.render(p) for p in allp]
+                except BaseException as e:  # noqa: BLE001
+                    after = ["EXC " + type(e).__name__]
+                if after != probes_before:
+                    what = "subsequent renders differ after a failed call"
                 if dd:
                     # look for an input on which the leftover state shows: nesting probes against an untouched twin
                     twin = build(preset, opts, {}, None)
                     for p_ in nest_probes(md):
                         try:
                             if md.render(p_) != twin.render(p_):
-                                what = "subsequent renders differ after a failed call (nesting probe vs an untouched identically built instance)"
+                                what = what or "subsequent renders differ after a failed call (nesting probe vs an untouched identically built instance)"
                                 break
                         except BaseException:  # noqa: BLE001
                             pass
                     ctx.mismatch("a failed call left state behind on the instance (the model's instance is unchanged by a failed call)",
                                  {"preset": preset, "input": doc, "slot": list(slot), "i": i, "exc": exc.__name__, "differences": dd})
-                try:
-                    after = [md.render(p) for p in allp]
-                except BaseException as e:  # noqa: BLE001
-                    after = ["EXC " + type(e).__name__]
-                if after != probes_before:
-                    what = what or "subsequent renders differ after a failed call"
         if what:
             ctx.fail("instance-changed", what,
                      {"preset": preset, "options": {k: repr(v) for k, v in opts.items()}, "input": doc,
